@@ -1,0 +1,42 @@
+package blockchain
+
+import (
+	"bytes"
+	"fmt"
+
+	"github.com/tendermint/tendermint/types"
+)
+
+// VerifySeenCommit verifies that commit can be persisted as the seen commit of
+// the block blockID at the given height.
+//
+// Fast sync verifies a block with the LastCommit of its successor and stores
+// that commit as the block's seen commit. When the node switches to consensus,
+// the seen commit of the last block is turned back into the set of precommits
+// consensus starts from (types.CommitToVoteSet), which verifies every vote and
+// panics on one it cannot add. ValidatorSet.VerifyCommitLight is therefore not
+// enough here: it returns as soon as +2/3 of the voting power has been tallied
+// and ignores votes for nil. Check every signature instead, and make sure each
+// one is recorded under the address of the validator at its index, which
+// VerifyCommit does not look at but the vote set does.
+func VerifySeenCommit(
+	chainID string,
+	vals *types.ValidatorSet,
+	blockID types.BlockID,
+	height int64,
+	commit *types.Commit,
+) error {
+	if err := vals.VerifyCommit(chainID, blockID, height, commit); err != nil {
+		return err
+	}
+	for idx, commitSig := range commit.Signatures {
+		if commitSig.Absent() {
+			continue
+		}
+		if valAddr := vals.Validators[idx].Address; !bytes.Equal(commitSig.ValidatorAddress, valAddr) {
+			return fmt.Errorf("wrong validator address in commit signature #%d: expected %X, got %X",
+				idx, valAddr, commitSig.ValidatorAddress)
+		}
+	}
+	return nil
+}
